@@ -94,6 +94,11 @@ class NumericValueDrv(Driver):
             f, lo, hi = dpt_family(vt)
             for v in (lo, hi, 0, 1, 50):
                 yield {"cls": self.cls_name, "cfg": {"kw": {"value_type": vt}, "ga": ["group_address"]}, "pre": [], "calls": [["set", [L.num(v)]]]}
+        # 2-octet floats whose mantissa lies between the largest one (2047) and the next exponent's step, both signs
+        for e in range(0, 15):
+            for m in (2047.25, 2047.4, 2047.6, -2048.25, -2048.6, 2046.5, 1023.5):
+                v = m * 2**e / 100
+                yield {"cls": self.cls_name, "cfg": {"kw": {"value_type": "2byte_float"}, "ga": ["group_address"]}, "pre": [], "calls": [["set", [F(v)]]]}
 
     def observe(self, dev, clock):
         return {"value": dev.resolve_state()}
